@@ -364,6 +364,62 @@ func c19(r *rep.Run) {
 		})
 	}
 	time.Local = origLocal
+	// cross-layout matrix: "custom layouts are honoured" also means that a text
+	// written for ONE layout is judged by the layout the call names, never by
+	// another one (the operator's default in particular): every calendar day
+	// rendered under every modelled layout x every modelled layout as the
+	// second argument; the oracle decides value or error independently.
+	{
+		allLayouts := []string{"2006-01-02", "02/01/2006", "01/02/2006", "2006-02-01", "2006-01-02 15:04:05", "2006-01-02T15:04:05Z07:00", "2006-1-2", "2006-1-2 15:4:5"}
+		var texts []string
+		seenTxt := map[string]bool{}
+		for _, s := range stamps {
+			if s.h != 0 || s.mi != 0 {
+				continue
+			}
+			for _, t := range []string{
+				fmt.Sprintf("%04d-%02d-%02d", s.y, s.mo, s.d), fmt.Sprintf("%02d/%02d/%04d", s.d, s.mo, s.y), fmt.Sprintf("%02d/%02d/%04d", s.mo, s.d, s.y),
+				fmt.Sprintf("%04d-%02d-%02d", s.y, s.d, s.mo), fmt.Sprintf("%04d-%02d-%02d %02d:%02d:%02d", s.y, s.mo, s.d, s.h, s.mi, s.s),
+				fmt.Sprintf("%04d-%02d-%02dT%02d:%02d:%02dZ", s.y, s.mo, s.d, s.h, s.mi, s.s), fmt.Sprintf("%04d-%d-%d", s.y, s.mo, s.d),
+			} {
+				if !seenTxt[t] {
+					seenTxt[t] = true
+					texts = append(texts, t)
+				}
+			}
+		}
+		var cross, crossErr int64
+		r.ParallelFor(len(texts), func(w, i int) {
+			c := mk(w)
+			txt := texts[i]
+			for _, L := range allLayouts {
+				want, valid, modelled := ref.ParseCivil(L, txt)
+				if !modelled {
+					continue
+				}
+				for _, n := range []string{"date", "datetime", "to_date", "to_datetime", "t_date", "t_time"} {
+					for _, lit := range []bool{false, true} {
+						got := c.call(n, []interface{}{txt, L}, lit)
+						atomic.AddInt64(&cross, 1)
+						d := map[string]interface{}{"literal": lit, "text": txt, "layout": L}
+						switch {
+						case got.Panic != nil:
+							r.Violate("date-panic", n+L, sprintf("(%s %q %q) panics: %v", n, txt, L, got.Panic), d)
+						case valid && !drive.SameOutcome(got, drive.Out{Val: want}):
+							r.Violate("date-encoding", n+"cross"+L, sprintf("(%s %q %q) = %s, under that layout the UTC Unix time is %d", n, txt, L, got, want), d)
+						case !valid && got.Err == nil:
+							r.Violate("date-accepts-invalid", n+"cross"+L, sprintf("(%s %q %q) is accepted (%s) although the text is not a date under the layout the call names", n, txt, L, got), d)
+						}
+						if !valid {
+							atomic.AddInt64(&crossErr, 1)
+						}
+					}
+				}
+			}
+		})
+		r.Cov["date_cross_layout_calls"] = cross
+		r.Cov["date_cross_layout_rejections_expected"] = crossErr
+	}
 	// every pair orders chronologically (encodings were verified equal to the engine's)
 	var dp, dnt int64
 	for _, a := range stamps {
